@@ -656,7 +656,7 @@ class C12(C.Check):
     ]
     assumptions = [
         "noise_cov_inv = noise_std_inv^2 (what the constructor derives for diagonal noise; the caller's contract otherwise)",
-        "Poisson mean E[d] = x; data of the variable-covariance Gaussian has mean m and variance 1/s^2 per real component (consistent: C12_expectation_satisfiable)",
+        "data of the variable-covariance Gaussian has mean m and variance 1/s^2 per real component (consistent: C12_expectation_satisfiable)",
         "Categorical rows: p = softmax(x) sums to 1 and s_i^2 = p_i",
         "float64 rounding is outside the theorems; tolerances 1e-10 (correspondence), 1e-9 (dense identities), 1e-6 (quadrature)",
     ]
